@@ -189,6 +189,24 @@ def _gen_message(rng: random.Random, big: bool = False, allow_long: bool = True)
         for r in msg['an']:
             r['ttl'] = rng.choice([120, 4500, 10])
             r['created'] = rng.choice([0.0, -30000.0, -119000.0, -4499000.0])
+            if rng.random() < 0.3:
+                # in its last second: alive, written with a remaining TTL of 0 (a millisecond before, at, after the edges)
+                r['created'] = -1000.0 * r['ttl'] + rng.choice([1, 500, 999, 1000, 1001])
+    if rng.random() < 0.06:
+        # names as applications give them: without the trailing dot (several labels, sharing suffixes with the names around them)
+        def undot(n: str) -> str:
+            return n[:-1] if n.endswith('.') and len(n) > 1 and rng.random() < 0.7 else n
+        for q in msg['qs']:
+            q['name'] = undot(q['name'])
+        for sec in ('an', 'ns', 'ar'):
+            for r in msg[sec]:
+                r['name'] = undot(r['name'])
+                if r['kind'] in ('PTR', 'CNAME'):
+                    r['rd'] = undot(r['rd'])
+                elif r['kind'] == 'SRV':
+                    r['rd'][3] = undot(r['rd'][3])
+                elif r['kind'] == 'NSEC':
+                    r['rd'][0] = undot(r['rd'][0])
     return msg
 
 
